@@ -469,6 +469,15 @@ func (w *ConwayTransactionWitnessSet) UnmarshalCBOR(cborData []byte) error {
 	return nil
 }
 
+func (w *ConwayTransactionWitnessSet) MarshalCBOR() ([]byte, error) {
+	// Return the original CBOR if available so that re-encoding a decoded
+	// object reproduces the exact bytes it was decoded from
+	if w.Cbor() != nil {
+		return w.Cbor(), nil
+	}
+	return cbor.EncodeGeneric(w)
+}
+
 func (w ConwayTransactionWitnessSet) Vkey() []common.VkeyWitness {
 	return w.VkeyWitnesses.Items()
 }
